@@ -601,6 +601,15 @@ def check_path(ex, cfg, status, ret, agg):
                 wf += [z3.BoolVal(len(rows) == (2 if f.get('pre') else 1)), rows[0][0] == win['c1'], ext == win['c2'] - win['c1']]
         check_claim(ex, agg, 'file index well formed: >=1 row, offset 0 first, strictly increasing, d(offset)<=d(sample), last offset inside the '
                              'stored rows, all samples inside the file window, rows <= window capacity', z3.And(*wf))
+        # fill policy: slots never written must read as the fill value, so a dataset may be created with the fill pass switched off
+        # (H5D_FILL_TIME_NEVER = 1) only if the call that creates the file writes every one of its slots
+        ft = [e for e in ex.events[:f['rf']['ev']] if e[0] == 'H5Pset_fill_time' and e[1] == f['rf']['dcpl']]
+        if ft and not f.get('pre'):
+            tval = ft[-1][2]
+            crc = [c for c in calls if c['ev0'] <= f['ev'] < c['ev1']]
+            wrote = sum([w['cnt'] for w in f['writes'] if crc and crc[0]['ev0'] <= w['ev'] < crc[0]['ev1']]) if crc else 0
+            check_claim(ex, agg, 'a file whose fill pass is switched off (H5D_FILL_TIME_NEVER) has every slot of its window written by the call that creates it',
+                        z3.Or(tval != 1, wrote == win['c2'] - win['c1']) if not isinstance(tval, int) else (True if tval != 1 else wrote == win['c2'] - win['c1']))
         # a file is created only by a call that writes at least one of its slots
         cre_call = [c for c in calls if c['ev0'] <= f['ev'] < c['ev1']]
         if not f.get('pre'): agg.note('a data file exists only if the call that created it wrote at least one of its slots',
